@@ -1149,6 +1149,16 @@ def main2():
         report["kernels"]["stun_usage_ice_conncheck_create_reply(role guard)"] = {"file": "stun/usages/ice.c"}
     except Unsupported as e:
         report["errors"].append(f"stun/usages/ice.c:role guard: {e}")
+    try:
+        import extract_flow
+        sp = extract_flow.SPEC_TURNSEND
+        fpath = os.path.join(REPO, sp["file"])
+        d = ast_of(fpath, sp["fn"])
+        txt, info = extract_flow.translate_turnsend(sp, d, open(fpath, "rb").read(), consts, Unsupported, REPO)
+        open(os.path.join(GEN, "TurnSend.lean"), "w").write(txt)
+        report["kernels"][sp["fn"] + "(flow skeleton)"] = dict(info, file=sp["file"])
+    except Unsupported as e:
+        report["errors"].append(f"socket/udp-turn.c:socket_send_message: {e}")
     out.append("end Nice.Gen\n")
     open(os.path.join(GEN, "Kernels.lean"), "w").write("\n".join(out))
     with open(os.path.join(GEN, "Tables.lean"), "w") as f:
